@@ -365,8 +365,17 @@ def flog(I, x, base=None):
     return r if base is None else r / sp.log(S(base))
 
 
+def _num_if_const(x):
+    if x.free_symbols and len(str(x)) < 400:
+        try:
+            c = sp.cancel(x)
+            if c.is_number: return c
+        except Exception: pass
+    return x
+
+
 def facos(I, x):
-    x = S(x); I.run.defined.append(('unit', x, I.run.lineno)); return sp.acos(x)
+    x = _num_if_const(S(x)); I.run.defined.append(('unit', x, I.run.lineno)); return sp.acos(x)
 
 
 def fasin(I, x):
@@ -454,6 +463,9 @@ def call_lib(I, name, args, kw, node=None):
         r = args[1] if d else args[2]
         re_ = r.elem if isinstance(r, Arr) else r
         return Arr(re_) if isarr else re_
+    if c in ('greater', 'greater_equal', 'less', 'less_equal', 'equal', 'not_equal'):
+        op = {'greater': ast.Gt, 'greater_equal': ast.GtE, 'less': ast.Lt, 'less_equal': ast.LtE, 'equal': ast.Eq, 'not_equal': ast.NotEq}[c]
+        return compare(I, op, args[0], args[1])
     if c in ('maximum', 'fmax'): return minmax2(I, args[0], args[1], True)
     if c in ('minimum', 'fmin'): return minmax2(I, args[0], args[1], False)
     if c in ('max', 'min', 'amax', 'amin', 'nanmax', 'nanmin'):
@@ -569,7 +581,29 @@ def call_lib(I, name, args, kw, node=None):
         v = S(args[0]) if not isinstance(args[0], str) else num(int(args[0]))
         if v.is_number: return sp.Integer(int(v))
         raise Unsupported('int() of a symbolic value')
-    if c in ('str', 'repr'): return args[0] if isinstance(args[0], str) else '<str>'
+    if c in ('str', 'repr'):
+        v = args[0]
+        if isinstance(v, str): return v
+        if isinstance(v, sp.Basic) and v.is_number:
+            if v == sp.I: return '1j'
+            if v.is_Integer: return str(int(v))
+            if v.is_Rational: return repr(float(v))
+        if isinstance(v, bool) or v is None: return str(v)
+        return '<str>'
+    if c == 'compile':
+        if not isinstance(args[0], str) or '<str>' in args[0]: raise Unsupported('compile of a non-constant string')
+        return Opaque('code', args[0])
+    if c in ('exec', 'eval'):
+        from .sx import Env
+        src = args[0].payload if isinstance(args[0], Opaque) and args[0].tag == 'code' else args[0]
+        if not isinstance(src, str) or '<str>' in src: raise Unsupported('%s of a non-constant string' % c)
+        glb = args[1] if len(args) > 1 and args[1] is not None else None
+        env = Env(I.cur_module, None, None)
+        if isinstance(glb, dict): env.locals = glb
+        elif getattr(I, 'cur_env', None) is not None: env = I.cur_env
+        if c == 'eval':
+            return I.eval(ast.parse(src, mode='eval').body, env)
+        I.block(ast.parse(src).body, env); return None
     if c == 'bool':
         return I.truth(args[0])
     if c == 'complex': return S(args[0]) + sp.I * S(args[1] if len(args) > 1 else 0)
